@@ -10,12 +10,12 @@ func i8(b []byte) int  { return int(int8(b[0])) }
 func i32(b []byte) int { return int(int32(binary.LittleEndian.Uint32(b))) }
 
 // popInt32 is "(int)engine.Pop().GetInteger()".
-func (vm *VM) popInt32() int       { return vm.int32(vm.pop()) }
+func (vm *VM) popInt32() int        { return vm.int32(vm.pop()) }
 func (vm *VM) popInteger() *big.Int { return vm.integer(vm.pop()) }
-func (vm *VM) popBool() bool       { return vm.boolean(vm.pop()) }
-func (vm *VM) popSpan() []byte     { return vm.span(vm.pop()) }
-func (vm *VM) pushInt(x *big.Int)  { vm.push(mkInt(x)) }
-func (vm *VM) pushBool(b bool)     { vm.push(mkBool(b)) }
+func (vm *VM) popBool() bool        { return vm.boolean(vm.pop()) }
+func (vm *VM) popSpan() []byte      { return vm.span(vm.pop()) }
+func (vm *VM) pushInt(x *big.Int)   { vm.push(mkInt(x)) }
+func (vm *VM) pushBool(b bool)      { vm.push(mkBool(b)) }
 
 // assertShift is ExecutionEngineLimits.AssertShift: "shift > MaxShift or
 // shift < 0 => InvalidOperationException" (MaxShift = 256).
